@@ -49,7 +49,8 @@ def local_onsets(ob, horizon_year=HORIZON_YEAR):
                         break
             y += 1
         out = sorted(set(out) | set(occ))
-    return sorted(set(out))
+    ex = {datetime(*e) for e in ob.get("exdates") or []}      # EXDATE removes recurrences (not the DTSTART itself in dateutil; we
+    return sorted(t for t in set(out) if t not in ex or t == start)   # keep DTSTART, which RFC 5545 also counts as first onset)
 
 
 def utc_onsets(defn, horizon_year=HORIZON_YEAR):
